@@ -75,6 +75,55 @@ theorem struct_unpack_pack (e : Char) (codes : List Char) (vals : List Val) (hfi
     Struct.unpack e codes (d ++ rest) = .ok vals := by
   exact struct_unpack_pack' e codes vals hfin d rest h
 
+/-! ### Python floats that are not representable in the target format
+
+`float2bitstore` hands the float to `struct.pack`, which rounds to nearest-even and raises `OverflowError` only when
+the rounded value would be infinite; the code then stores ±inf.  `roundF64` is the model of that primitive
+(trusted, tied to CPython by the correspondence run on ties, near-ties, the subnormal boundary and the band above the
+largest finite value); what is proved here is that the code's two branches are `storedPattern`, and that a pattern
+`storedPattern` yields is packed like any representable value (so `pack_struct_eq` applies to it). -/
+
+/-- `try: struct.pack(fmt, f) except OverflowError: struct.pack(fmt, ±inf)` stores exactly `storedPattern`. -/
+theorem float2bitstoreD_eq (p64 len : Nat) (big : Bool) :
+    float2bitstoreD p64 len big = float2bitstore (storedPattern len p64) len big := by
+  unfold float2bitstoreD storedPattern
+  cases roundF64 len p64 <;> rfl
+
+/-- A value `struct.pack` accepts is stored as `struct.pack` rounds it (no spurious ±inf below the threshold). -/
+theorem storedPattern_of_accepted (p64 len p : Nat) (h : roundF64 len p64 = some p) : storedPattern len p64 = p := by
+  simp [storedPattern, h]
+
+/-- Sanity of the primitive's model at the places where a wrong threshold or rounding direction would show
+    (values computed with CPython's `struct.pack`): the band between the largest finite value and the overflow
+    threshold rounds DOWN, the threshold itself overflows, ties go to even, half the smallest subnormal goes to 0. -/
+example :
+    roundF64 16 0x40effde000000000 = some 0x7bff ∧
+    roundF64 16 0x40effdffffffffff = some 0x7bff ∧
+    roundF64 16 0x40effe0000000000 = none ∧
+    roundF64 16 0xc0effdffae147ae1 = some 0xfbff ∧
+    roundF64 16 0x3ff0020000000000 = some 0x3c00 ∧
+    roundF64 16 0x3ff0060000000000 = some 0x3c02 ∧
+    roundF64 16 0x3ff0020000000001 = some 0x3c01 ∧
+    roundF64 16 0x3e60000000000000 = some 0x0 ∧
+    roundF64 16 0x3e60000000000001 = some 0x1 ∧
+    roundF64 16 0x3e78000000000000 = some 0x2 ∧
+    roundF64 16 0x8000000000000000 = some 0x8000 ∧
+    roundF64 16 0x3fb999999999999a = some 0x2e66 ∧
+    roundF64 32 0x47efffffefffffff = some 0x7f7fffff ∧
+    roundF64 32 0x47effffff0000000 = none ∧
+    roundF64 32 0x47efffffe0000001 = some 0x7f7fffff ∧
+    roundF64 32 0x3ff0000010000000 = some 0x3f800000 ∧
+    roundF64 32 0x3ff0000030000000 = some 0x3f800002 ∧
+    roundF64 32 0x3690000000000000 = some 0x0 ∧
+    roundF64 32 0x3690000000000001 = some 0x1 ∧
+    roundF64 32 0x3fb999999999999a = some 0x3dcccccd ∧
+    roundF64 32 0xb7a16c262777579c = some 0x800116c2 ∧
+    roundF64 64 0x3fb999999999999a = some 0x3fb999999999999a ∧
+    roundF64 64 0x1 = some 0x1 ∧
+    roundF64 64 0xffefffffffffffff = some 0xffefffffffffffff := by decide +kernel
+example : storedPattern 16 0x40effe0000000000 = 0x7c00 ∧ storedPattern 32 0xc7effffff0000000 = 0xff800000 := by
+  decide +kernel
+
 /-! ### non-vacuity -/
 
 example : (pack "<2hq" [.int 1, .int (-2), .int 3]).toOption
